@@ -273,6 +273,7 @@ func check(args []string) int {
 	var hruns []harnessRun
 	violations := 0
 	knownPrinted := map[string]bool{}
+	var crossCheck map[string]int
 	for _, h := range spec.Harnesses {
 		if *only != "" && h.Func != *only {
 			continue
@@ -308,7 +309,28 @@ func check(args []string) int {
 		if h.MaxSteps > 0 {
 			e.MaxSteps = h.MaxSteps
 		}
+		e.RecordUnsat = *tier == "thorough"
 		res := e.Explore(f, symgo.Options{Bounds: ts.Bounds, MapOrder: h.MapOrder, MaxViolations: 40, Seed: int64(seed)})
+		if e.RecordUnsat && len(res.UnsatQueries) > 0 {
+			qs := make([]string, 0, len(res.UnsatQueries))
+			for q := range res.UnsatQueries {
+				qs = append(qs, q)
+			}
+			for _, other := range []string{"z3-new", "cvc5"} {
+				agree, differ, rerr := symgo.Recheck(other, qs)
+				if crossCheck == nil {
+					crossCheck = map[string]int{}
+				}
+				crossCheck[other+".rechecked"] += len(qs)
+				crossCheck[other+".agree_unsat"] += agree
+				fmt.Printf("cross-solver re-check of %d distinct discharged obligations with %s: %d unsat, %d differ\n", len(qs), other, agree, len(differ))
+				if rerr != nil {
+					inconclusive = append(inconclusive, fmt.Sprintf("%s: cross-solver re-check with %s failed: %v", h.Func, other, rerr))
+				} else if len(differ) > 0 {
+					inconclusive = append(inconclusive, fmt.Sprintf("%s: %s disagrees with z3 on %d discharged obligation(s): %v", h.Func, other, len(differ), differ[:1]))
+				}
+			}
+		}
 		results = append(results, res)
 		hr := harnessRun{Spec: h, Tier: ts, Res: res}
 		fmt.Printf("harness %s: paths=%d completed=%d pruned=%d obligations=%d discharged=%d queries(sat/unsat/unknown)=%d/%d/%d solver=%.1fs wall=%.1fs\n",
@@ -399,6 +421,7 @@ func check(args []string) int {
 	for _, m := range inconclusive {
 		fmt.Println("INCONCLUSIVE:", m)
 	}
+	evidenceCross = crossCheck
 	writeEvidence(id, *tier, seed, spec, hruns, e, time.Since(start).Seconds(), violations, note)
 	if exit == 0 {
 		if len(knownPrinted) > 0 {
@@ -409,6 +432,8 @@ func check(args []string) int {
 	}
 	return exit
 }
+
+var evidenceCross map[string]int
 
 type replayOutcome struct {
 	Label        string   `json:"assertion"`
@@ -524,6 +549,9 @@ func writeEvidence(id, tier string, seed int, spec checkSpec, runs []harnessRun,
 	cov["trusted_base"] = []string{"symgo executor and its intrinsics (listed per harness)", "golang.org/x/tools/go/ssa v0.29.0", "z3", "harness doubles for the Kubernetes API (DESIGN 4.1)"}
 	if e != nil {
 		cov["load_s"] = e.LoadSeconds
+	}
+	if evidenceCross != nil {
+		cov["cross_solver_recheck"] = evidenceCross
 	}
 	if note != "" {
 		cov["note"] = note
